@@ -26,6 +26,7 @@ type vjStep struct {
 type vjBehaviour struct {
 	ID    int      `json:"id"`
 	Steps []vjStep `json:"steps"`
+	Sem   string   `json:"sem"` // SDPSemantics of the endpoint under test ("" = default)
 }
 
 // vDescID names a description by type and o= line; pion gives every description it creates a
@@ -53,9 +54,18 @@ func vJsepProj(pc *PeerConnection) vkM {
 	}
 }
 
-func vNewPC(t *testing.T) *PeerConnection {
+func vNewPC(t *testing.T, sem ...string) *PeerConnection {
 	t.Helper()
-	pc, err := NewPeerConnection(Configuration{})
+	cfg := Configuration{}
+	if len(sem) > 0 {
+		switch sem[0] {
+		case "planb":
+			cfg.SDPSemantics = SDPSemanticsPlanB
+		case "fallback":
+			cfg.SDPSemantics = SDPSemanticsUnifiedPlanWithFallback
+		}
+	}
+	pc, err := NewPeerConnection(cfg)
 	if err != nil {
 		t.Fatal(err)
 	}
@@ -170,6 +180,32 @@ func vDamage(d SessionDescription, bad string) SessionDescription {
 		})
 	case "bad-apt":
 		d.SDP = vReApt.ReplaceAllString(d.SDP, "apt=abc")
+	case "planb-shape-no-mid":
+		// one section announces two tracks (the Plan-B shape) under a mid that is not a Plan-B name, and the
+		// first section has no mid at all; the ICE credentials are (also) given at session level
+		if u, w := vReUfrag.FindString(d.SDP), vRePwd.FindString(d.SDP); u != "" && w != "" {
+			d.SDP = strings.Replace(d.SDP, "t=0 0\r\n", "t=0 0\r\n"+u+w, 1)
+		}
+		first := true
+		d.SDP = vReMid.ReplaceAllStringFunc(d.SDP, func(m string) string {
+			if first {
+				first = false
+
+				return ""
+			}
+
+			return m
+		})
+		if i := strings.Index(d.SDP, "m=video"); i >= 0 {
+			rest := d.SDP[i:]
+			end := strings.Index(rest[1:], "\r\nm=")
+			ins := "a=ssrc:1111111 cname:one\r\na=ssrc:1111111 msid:streamone trackone\r\na=ssrc:2222222 cname:two\r\na=ssrc:2222222 msid:streamtwo tracktwo\r\n"
+			if end < 0 {
+				d.SDP += ins
+			} else {
+				d.SDP = d.SDP[:i+1+end+2] + ins + d.SDP[i+1+end+2:]
+			}
+		}
 	}
 	return d
 }
@@ -233,7 +269,7 @@ func TestVerifJsep(t *testing.T) {
 func vJsepBehaviour(t *testing.T, tr *vkTrace, sigs *vSigEvents, bh vjBehaviour) {
 	t.Helper()
 	tr.Reset(bh.ID)
-	pc := vNewPC(t)
+	pc := vNewPC(t, bh.Sem)
 	defer func() { _ = pc.Close() }()
 	if _, err := pc.AddTransceiverFromKind(RTPCodecTypeAudio); err != nil {
 		t.Fatal(err)
